@@ -295,6 +295,9 @@ func census(bubbleOnly bool) (n int, tops []string) {
 		}
 		buf = make([]byte, 2*len(buf))
 	}
+	if os.Getenv("VERIF_DUMP") == "1" {
+		fmt.Fprintf(os.Stderr, "==== census dump ====\n%s\n", buf)
+	}
 	cnt := map[string]int{}
 	for _, g := range strings.Split(string(buf), "\n\n") {
 		hdr := goroutineHdr.FindStringSubmatch(g)
